@@ -72,6 +72,8 @@ impl FlushWorker {
             let flush_task = tokio::spawn(async move {
                 let _inflight_guard = inflight_guard;
                 let was_empty = memtable.is_empty();
+                #[cfg(sneldb_verif)]
+                crate::verif_hooks::vpd("fw_begin", &segment_id.to_string());
 
                 if tracing::enabled!(tracing::Level::INFO) {
                     info!(
@@ -99,6 +101,8 @@ impl FlushWorker {
                     Arc::clone(&flush_coord_lock),
                 );
                 let flush_result = flusher.flush().await;
+                #[cfg(sneldb_verif)]
+                crate::verif_hooks::vp("fw_flushed");
 
                 match &flush_result {
                     Err(e) => {
@@ -158,6 +162,8 @@ impl FlushWorker {
                             return flush_result;
                         }
 
+                        #[cfg(sneldb_verif)]
+                        crate::verif_hooks::vp("fw_verified");
                         // Only update segment_ids after successful verification
                         let segment_name = format!("{:05}", segment_id);
                         {
@@ -176,6 +182,8 @@ impl FlushWorker {
                             }
                         }
 
+                        #[cfg(sneldb_verif)]
+                        crate::verif_hooks::vp("fw_published");
                         // Mark as verified and clear passive buffer
                         if track_lifecycle {
                             lifecycle.mark_verified(segment_id).await;
@@ -205,6 +213,8 @@ impl FlushWorker {
                         // Note: Passive buffer is now empty and will be filtered out by
                         // PassiveBufferSet::non_empty() in subsequent queries
 
+                        #[cfg(sneldb_verif)]
+                        crate::verif_hooks::vp("fw_passive_cleared");
                         // Clean up WAL files
                         if tracing::enabled!(tracing::Level::DEBUG) {
                             debug!(
@@ -216,6 +226,8 @@ impl FlushWorker {
                         }
                         let cleaner = WalCleaner::new(shard_id);
                         cleaner.cleanup_up_to(segment_id + 1);
+                        #[cfg(sneldb_verif)]
+                        crate::verif_hooks::vp("fw_wal_cleaned");
                     }
                 }
 
@@ -242,6 +254,8 @@ impl FlushWorker {
             };
 
             self.flush_progress.mark_completed(flush_id);
+            #[cfg(sneldb_verif)]
+            crate::verif_hooks::vp("fw_done");
 
             // Always send completion signal, even on error/panic
             if let Some(completion) = completion {
